@@ -225,7 +225,8 @@ fn push(blocks: &mut UnstableBlocks, utxos: &UtxoSet, block: Block) -> (r: Resul
         r.is_err() ==> *final(blocks) == *old(blocks),
         r.is_ok() ==> final(blocks).tree == tree_extended(old(blocks).tree, block.hash, block.header)
             && final(blocks).stability_threshold == old(blocks).stability_threshold
-            && final(blocks).network == old(blocks).network,
+            && final(blocks).network == old(blocks).network
+            && final(blocks).next_block_headers.offered@ == old(blocks).next_block_headers.offered@,
 { unimplemented!() }
 
 //@extract file=canister/src/blocktree.rs item="struct BlockDoesNotExtendTree"
@@ -430,7 +431,8 @@ impl<'a> BlockValidator<'a> {
 //@|         && final(state).stable_block_headers == old(state).stable_block_headers
 //@|         && final(state).syncing_state == old(state).syncing_state
 //@|         && final(state).fees == old(state).fees
-//@|         && final(state).api_access == old(state).api_access,
+//@|         && final(state).api_access == old(state).api_access
+//@|         && final(state).unstable_blocks.next_block_headers.offered@ == old(state).unstable_blocks.next_block_headers.offered@,
 //@end
 
 // ---------------------------------------------------------------------------------------
